@@ -661,11 +661,11 @@ def apply_graph_updates_high_memory(current_graph, updates, in_graph):
                 pass
             else:
                 added = checked_flagged_heap_push(
-                    current_graph[1][p],
-                    current_graph[0][p],
-                    current_graph[2][p],
+                    current_graph[1][q],
+                    current_graph[0][q],
+                    current_graph[2][q],
                     d,
-                    q,
+                    p,
                     1,
                 )
 
